@@ -160,12 +160,29 @@ def frame_kind(stderr):
     return "unknown-frame"
 
 
+def focus(cls):
+    """Mirror of plan::focus: reduce a class to its `flh<..>` part (fixed-length
+    list with heap elements: a separately generated lowering path)."""
+    i = cls.find("flh<")
+    if i < 0:
+        return cls
+    depth = 0
+    for j in range(i + 3, len(cls)):
+        if cls[j] == "<":
+            depth += 1
+        elif cls[j] == ">":
+            depth -= 1
+            if depth == 0:
+                return cls[i:j + 1]
+    return cls[i:]
+
+
 def classify_crash(rc, stderr, platform):
     """A run died.  Returns (kind, signature, what) with kind in
     {'violation', 'inconclusive'}."""
     ctx = last_ctx(stderr)
     d = ctx.get("dir", "?")
-    shape = ctx.get("shape", "?")
+    shape = focus(ctx.get("shape", "?"))
     where = "%s `%s` phase %s (call %s, world %s, %s)" % (d, ctx.get("func"), ctx.get("phase"), ctx.get("call"), ctx.get("world"), platform)
     tail = stderr[-1800:]
     m = re.search(r"RSGUEST-MEM-ERROR kind=(\S+) ([^\n]*)", stderr)
